@@ -815,6 +815,9 @@ struct Gen {
         leaves.push_back(iif(E({VP(P({"missing"})), L("1", 1, 0)}, {"+"}), {text("T")}, {text("F")}, true, true, 0));
         leaves.push_back(iif(E({VP(P({"f"})), L("2", 2, 0)}, {">"}), {text("big "), math(E({VP(P({"f"})), L("2", 2, 0)}, {"-"}))}, {text("small")}, true, true, 0));
         leaves.push_back(iif(E({VP(P({"t"}))}, {}), {}, {text("only-false")}, false, true, 0));
+        // a closing brace as plain text inside a value, next to a sub-tag
+        leaves.push_back(iif(E({L("1", 1, 0)}, {}), {var(P({"a"}))}, {text("{F}")}, true, true, 0));
+        leaves.push_back(iif(E({VP(P({"z"}))}, {}), {text("{T}")}, {var(P({"a"})), text("}")}, true, true, 0));
         leaves.push_back(iif(E({VP(P({"a"})), L("9", 9, 0)}, {"-"}), {text("T")}, {text("below")}, true, true, 0));
         // inside loops with value "v" (and "w" one level deeper)
         for (auto p : {P({"v"}), P({"v", "a"}), P({"v", "0"}), P({"v", "zz"}), P({"a"})}) {
